@@ -169,6 +169,9 @@ def decode_chain(v):
     return int(s[:4]) - 1000, [int(c) for c in s[4:]]
 
 
+C09_ORIGIN = [0]
+
+
 def make_compose_stubs():
     """Leaf forecaster and tagging transformer for C09.  All events go to LOG["c09"] in call order."""
     import pandas as pd
@@ -177,13 +180,17 @@ def make_compose_stubs():
     from sktime.utils.validation.series import check_series
     T = "c09"
 
+    def tm(i):
+        """Time point as the specification names it: the index label minus the origin the driver shifted the data by."""
+        return int(i) - C09_ORIGIN[0]
+
     def ev(**k):
         LOG.setdefault(T, []).append(k)
 
     def rep_of(y):
         d = [decode_chain(v) for v in y.values]
         if not d or any(x is None for x in d) or any(x[1] != d[0][1] for x in d) or \
-                [x[0] for x in d] != [int(i) for i in y.index]:
+                [x[0] for x in d] != [tm(i) for i in y.index]:
             return [-1]
         return d[0][1]
 
@@ -196,19 +203,19 @@ def make_compose_stubs():
             self._set_y_X(y, X)
             self._set_fh(fh)
             self._chain = rep_of(y)
-            ev(ev="fit", who=self.id, rep=self._chain, lo=int(y.index[0]), hi=int(y.index[-1]), upd=False)
+            ev(ev="fit", who=self.id, rep=self._chain, lo=tm(y.index[0]), hi=tm(y.index[-1]), upd=False)
             self._is_fitted = True
             return self
 
         def update(self, y, X=None, update_params=True):
             self.check_is_fitted()
             self._update_y_X(y, X)
-            ev(ev="update", who=self.id, rep=rep_of(y), lo=int(y.index[0]), hi=int(y.index[-1]),
+            ev(ev="update", who=self.id, rep=rep_of(y), lo=tm(y.index[0]), hi=tm(y.index[-1]),
                upd=bool(update_params))
             return self
 
         def _predict(self, fh, X=None, return_pred_int=False, alpha=0.05):
-            c = int(self.cutoff)
+            c = tm(self.cutoff)
             idx = fh.to_absolute(self.cutoff).to_pandas()
             ev(ev="predict", who=self.id, rep=[], lo=c, hi=c, upd=False)
             vals = []
@@ -228,14 +235,14 @@ def make_compose_stubs():
 
         def fit(self, Z, X=None):
             z = check_series(Z)
-            ev(ev="tfit", who=self.k, rep=rep_of(z), lo=int(z.index[0]), hi=int(z.index[-1]), upd=False)
+            ev(ev="tfit", who=self.k, rep=rep_of(z), lo=tm(z.index[0]), hi=tm(z.index[-1]), upd=False)
             self._is_fitted = True
             return self
 
         def transform(self, Z, X=None):
             self.check_is_fitted()
             z = check_series(Z)
-            ev(ev="ttransform", who=self.k, rep=rep_of(z), lo=int(z.index[0]), hi=int(z.index[-1]), upd=False)
+            ev(ev="ttransform", who=self.k, rep=rep_of(z), lo=tm(z.index[0]), hi=tm(z.index[-1]), upd=False)
             return z * 10.0 + self.k
 
         def inverse_transform(self, Z, X=None):
@@ -247,7 +254,7 @@ def make_compose_stubs():
         def update(self, Z, X=None, update_params=False):
             self.check_is_fitted()
             z = check_series(Z)
-            ev(ev="tupdate", who=self.k, rep=rep_of(z), lo=int(z.index[0]), hi=int(z.index[-1]),
+            ev(ev="tupdate", who=self.k, rep=rep_of(z), lo=tm(z.index[0]), hi=tm(z.index[-1]),
                upd=bool(update_params))
             return self
 
